@@ -103,6 +103,14 @@ CLAIMED["C15"] = (
     "Trusted: Lean kernel + propext/Classical.choice/Quot.sound; harness/c15.py (generators, renderers duplicated in Python, canonicalisers, oracle); translate/matchers.py; ASCII lower(); string search values and parent=None in keyword_search.",
     "DESIGN.md §6 C15")
 
+CLAIMED["C11"] = (
+    "Lean 4 model IV.Serde of ContentProvider.write / universal-newline text load, the six serialize/deserialize pairs with the save-as rules, marshal/unmarshal, Hydration.dehydrate/hydrate and dr.run's pruning; theorems for all inputs; correspondence on real archives collected with the real spec factories and hydrated intact and corrupted",
+    "Proof: exact line round trip read(write ls) = dropOneTrailingEmpty ls IFF no line contains \\n or \\r (roundtrip_lines_iff); the save-as location rules and loaded location = written file for every kind and every normalised save_as; cmd/args equality for every kind except the container file; raw bytes identical; "
+    "element order kept by marshal and unmarshal; per-element content under distinct destinations; a document is written iff it has results or errors; errors of failed components are persisted; hydrate = filterMap loadOne as a map — bad entries (unreadable, not JSON, wrong shape, unknown name) are no-ops at any position, intact entries always load. "
+    "Partial with ¬Full witnesses replayed on the real code (known findings): container-file cmd dropped, destination collisions of multi-output specs under a directory-form save_as, split=False command content interleaved. Tied: four correspondence streams (~12000 compared answers per quick run).",
+    "Trusted: Lean kernel + propext/Classical.choice/Quot.sound; harness/c11.py (generators, adapter, canonicalisers, oracle; classification of a corrupted file); json, UTF-8 codec, file system and cp as parameters; CPython text I/O tied by the write/read stream only; content that is not valid Unicode is out of scope.",
+    "DESIGN.md §6 C11")
+
 PENDING_REASON = "check not built yet in this round (planned: DESIGN.md §6); no claim is made until its model, theorems and correspondence run exist"
 
 
